@@ -170,6 +170,28 @@ Definition s_c16_encode (args : list (list Z)) : list Z :=
               ++ enc_res enc_n (os_encoded_len (argm 2 args) T_OCTET_STRING o)
   | _ => [1]
   end.
+(* c16.source: a script of request(n) / advance(k) on the value used as a decoding source; after every
+   request the amount reported and the whole of slice() *)
+Fixpoint oss_script (ops : list N) (st : oss) (log : list Z) : list Z :=
+  match ops with
+  | 0%N :: n :: r =>
+      match oss_request n st with
+      | Ok (g, st') => oss_script r st' (log ++ Z.of_N g :: enc_bytes (oss_slice st'))
+      | _ => log ++ [(-3)%Z]
+      end
+  | 1%N :: n :: r =>
+      let k := N.min n (len (ocur st)) in
+      match oss_advance k st with
+      | Ok st' => oss_script r st' (log ++ [Z.of_N k])
+      | _ => log ++ [(-3)%Z]
+      end
+  | _ => log
+  end.
+Definition s_c16_source (args : list (list Z)) : list Z :=
+  match octstr_take_from (argm 0 args) T_OCTET_STRING (argb 1 args) with
+  | Ok o => 0%Z :: oss_script (argb 2 args) (oss_new o) []
+  | _ => [1%Z]
+  end.
 Definition s_c17_cmp (args : list (list Z)) : list Z :=
   match octstr_take_from Ber T_OCTET_STRING (argb 0 args), octstr_take_from Ber T_OCTET_STRING (argb 1 args) with
   | Ok a, Ok b =>
@@ -346,6 +368,7 @@ Definition run_stream (sid : N) (args : list (list Z)) : list Z :=
   | 1406%N => s_c14_skipif args
   | 1601%N => s_c16_decode args
   | 1602%N => s_c16_encode args
+  | 1603%N => s_c16_source args
   | 1701%N => s_c17_cmp args
   | 1702%N => s_c17_slice args
   | 1801%N => s_c18_decode args
